@@ -287,6 +287,20 @@ namespace sqf::runtime
             private:
                 std::vector<std::shared_ptr<sqf::runtime::context>> m_contexts;
                 std::shared_ptr<sqf::runtime::context> m_context_active;
+                /// <summary>
+                /// Used by the stepping actions once the active context ran to completion:
+                /// removes it and tells what is left, state::empty only if no script remains.
+                /// </summary>
+                state drop_finished_active_context()
+                {
+                    if (m_context_active && m_context_active->empty())
+                    {
+                        auto it = std::find(m_contexts.begin(), m_contexts.end(), m_context_active);
+                        if (it != m_contexts.end()) { m_contexts.erase(it); }
+                        m_context_active = {};
+                    }
+                    return m_contexts.empty() ? state::empty : state::halted;
+                }
 
             public:
                 using context_iterator = std::vector<std::shared_ptr<sqf::runtime::context>>::iterator;
